@@ -8,7 +8,6 @@ package main
 import (
 	"bytes"
 	"context"
-	"time"
 	"flag"
 	"fmt"
 	"os"
@@ -17,6 +16,8 @@ import (
 	"strconv"
 	"strings"
 	"sync"
+	"syscall"
+	"time"
 
 	"verif/sim/core"
 	"verif/sim/ev"
@@ -62,6 +63,7 @@ func main() {
 	if !ok {
 		ev.Infra("unknown check %q", id)
 	}
+	ensureEnv(chk.env)
 	switch mode {
 	case "worker":
 		rep := ev.NewReport(id, *tier, int64(seed()), chk.level)
@@ -176,5 +178,33 @@ func runParts(chk check, job *core.Job) {
 			p.fn(sub)
 		}
 		off += n
+	}
+}
+
+// ensureEnv re-executes vsim with the environment a check needs (GODEBUG settings are read
+// when the process starts). Workers inherit it.
+func ensureEnv(env []string) {
+	missing := false
+	for _, kv := range env {
+		k, v, _ := strings.Cut(kv, "=")
+		if cur := os.Getenv(k); cur != v {
+			if k == "GODEBUG" && cur != "" && !strings.Contains(cur, v) {
+				v = cur + "," + v
+			} else if k == "GODEBUG" && strings.Contains(cur, v) {
+				continue
+			}
+			os.Setenv(k, v)
+			missing = true
+		}
+	}
+	if !missing {
+		return
+	}
+	exe, err := os.Executable()
+	if err != nil {
+		ev.Infra("%v", err)
+	}
+	if err := syscall.Exec(exe, os.Args, os.Environ()); err != nil {
+		ev.Infra("re-exec: %v", err)
 	}
 }
